@@ -546,6 +546,51 @@ class Gen:
             self.add('Sum', cfg, author, student(**dict(honest_over, **{place: spaced(rng, tmpl.format(H=hs[place], T=T))})),
                      kind, expect, honest=honest, twin=twin, entered=entered, term=T, place=place)
 
+    def sum_positions_family(self):
+        """every restricted construct in EACH student-entered box separately, under a random subset AND order of
+        input_positions, the value of the sum kept: each must be refused wherever it is typed"""
+        rng = self.rng
+        author_t, forb, bad, good = rng.choice([
+            (('1', '5', '2*n', 'n'), ['+'], '{H}+0', '({H})*1'),
+            (('0', '4', 'a*n', 'n'), ['0 * 7'], '{H}+0*7', '{H}+0*8'),
+            (('2', '6', 'a*n^2', 'n'), ['- 0', '+0'], '{H}-0', '({H})*1'),
+            (('1', '4', '3*n', 'n'), ['1*'], '1*({H})', '({H})*1'),
+            (('1', '3', 'n^2', 'n'), ['(1)'], '{H}*(1)', '{H}*1')])
+        author = dict(zip(FIELDS, author_t))
+        k = rng.randint(1, 4)
+        entered = rng.sample(FIELDS, k)                       # subset in a random ORDER: position i+1 goes to entered[i]
+        if all(b == 'summation_variable' for b in entered):
+            entered = ['summand'] + entered
+        cfg = {'variables': ['a', 'z'], 'instructor_vars': ['z'], 'blacklist': ['tan'], 'user_functions': ['uf'],
+               'forbidden_strings': forb, 'forbidden_message': FORBIDDEN_MESSAGE, 'tolerance': 1e-9,
+               'sample_from': {'a': [1, 3], 'z': [1, 3]}, 'even_odd': rng.choice([0, 0, 1, 2]),
+               'input_positions': {b: i + 1 for i, b in enumerate(entered)}}
+        cfg.update({o: v for o, v in author_options(rng, 'Sum').items()})
+
+        def student(**over):
+            d = dict(author)
+            d.update(over)
+            return [d[b] for b in entered]
+        honest = self.add('Sum', cfg, author, student(), 'honest', 'credit', entered=entered)
+        for box in entered:
+            if box == 'summation_variable':
+                continue
+            H = author[box]
+            twin = self.add('Sum', cfg, author, student(**{box: spaced(rng, good.format(H=H))}), 'control', 'credit',
+                            honest=honest, entered=entered)
+            self.add('Sum', cfg, author, student(**{box: spaced(rng, bad.format(H=H), 0.4)}), 'forbidden', 'invalid',
+                     honest=honest, twin=twin, entered=entered, place=box, position=cfg['input_positions'][box])
+            for kind, T, expect in [('func', 'tan(1)', 'invalid'), ('instructor', 'z', 'undefined'),
+                                    ('undefined', rng.choice(['q', 'A', "a'", 'zz']), 'undefined'),
+                                    ('suffix', '2k', 'undefined')]:
+                text = '(%s)*2^(0*%s)' % (H, T)                 # exact in floating point, so limits stay integers
+                if any(f.replace(' ', '') in text for f in forb):
+                    text = '(%s)*(2^(0*%s))' % (H, T)
+                if any(f.replace(' ', '') in text.replace(' ', '') for f in forb):
+                    continue
+                self.add('Sum', cfg, author, student(**{box: text}), kind, expect, honest=honest, twin=honest,
+                         entered=entered, place=box, term=T, position=cfg['input_positions'][box])
+
     def sum_corpus(self):
         """deterministic witnesses: empty index range; author's own fields validated as student input"""
         fields = ['lower', 'upper', 'summand', 'summation_variable']
@@ -793,6 +838,8 @@ def generate(seed, tier, escalate):
             g.history_family(cls)
     for _ in range(12 if tier == 'thorough' else 3):
         g.sampler_sibling_family()
+    for _ in range(60 if tier == 'thorough' else (16 if escalate else 8)):
+        g.sum_positions_family()
     if tier == 'thorough':
         fam = {'Formula': 260, 'Numerical': 90, 'Matrix': 130, 'Sum': 170, 'List': 90}
         per = 8
@@ -1104,7 +1151,7 @@ def witness_of(spec, obs, what):
     if spec.get('history'):
         w['spec']['history'] = spec['history']
         w['history_outcomes'] = obs.get('history')
-    for k in ('term', 'box', 'shape', 'place', 'entered', 'author_field', 'corpus', 'last_failure'):
+    for k in ('term', 'box', 'shape', 'place', 'entered', 'author_field', 'corpus', 'last_failure', 'position'):
         if k in spec:
             w[k] = spec[k]
     return w
